@@ -182,6 +182,25 @@ pub fn run(args: &Args) -> serde_json::Value {
         };
         let mut seen = 0usize;
         let _ = take_words_qmc(&g, &mut seen); // words drawn while staging are not part of any replayed call
+        // model-independent gate oracle: if some supplied table changes under a flip of all its spins, flipping a
+        // cluster that holds one of its operators changes the weight product (possibly to zero), so the plain cluster
+        // update must be off for this sampler
+        let asym = spec.bonds.iter().position(|b| {
+            let k = b.vars.len();
+            (0..(1usize << k)).any(|i| (0..(1usize << k)).any(|o| {
+                let bits = |x: usize| -> Vec<bool> { (0..k).map(|j| (x >> (k - 1 - j)) & 1 == 1).collect() };
+                let (ins, outs) = (bits(i), bits(o));
+                let fi: Vec<bool> = ins.iter().map(|x| !x).collect();
+                let fo: Vec<bool> = outs.iter().map(|x| !x).collect();
+                b.weight(&ins, &outs) != b.weight(&fi, &fo)
+            }))
+        });
+        if let Some(bi) = asym {
+            if g.should_do_cluster_update() {
+                fail("C04,C07,C09", format!("the plain cluster update is enabled although interaction {} (matrix {:?} on variables {:?}) changes its weight when all its spins are flipped", bi, spec.bonds[bi].mat, spec.bonds[bi].vars),
+                    json!({"sampler": "qmc", "history": hi, "bonds": spec.bonds.iter().map(|b| json!([b.kind, b.mat, b.vars])).collect::<Vec<_>>()}), &mut oracle_failures);
+            }
+        }
         let ncalls = 1 + rng.below(max_calls) as usize;
         let ctx = json!({"sampler": "qmc", "history": hi, "bonds": spec.bonds.iter().map(|b| json!([b.kind, b.mat, b.vars])).collect::<Vec<_>>(),
             "loops": spec.loops, "heatbath": spec.hb, "interactions_added_in_two_stages": staged});
